@@ -60,7 +60,39 @@ func C15(c *core.Ctx) {
 			c.Decide(fr.OK, "R15.1", "complete-then-callback:"+core.FuncName(fn), c.Pos(in), "the callback is invoked on every path after complete=true", core.FuncName(fn)+" can mark a ConsumeState complete without ever invoking its callback: the consumer never learns the outcome")
 		})
 	}
-	c.Floor("R15.1", "complete=true stores", nStores, 2)
+	// an error ends the fetch: wherever a fatal error is recorded in a ConsumeState, the state
+	// is marked complete in the same function — the data and retry paths test the field
+	// `complete`, so a state that failed but is not complete goes on receiving segments and
+	// reports an outcome a second time
+	nErr := 0
+	for _, fn := range p.FuncsIn(pkg) {
+		if strings.HasSuffix(p.File(fn.Pos()), "_test.go") {
+			continue
+		}
+		core.Instrs(fn, func(in ssa.Instruction) {
+			fa, v, ok := storeToField(in, "ConsumeState", "err")
+			if !ok || core.IsNilConst(v) {
+				return
+			}
+			if _, fresh := core.Strip(fa.X).(*ssa.Alloc); fresh {
+				return
+			}
+			nErr++
+			base := fa.X
+			marks := func(x ssa.Instruction) bool {
+				fa2, v2, ok2 := storeToField(x, "ConsumeState", "complete")
+				if !ok2 {
+					return false
+				}
+				b, isC := core.ConstBool(v2)
+				return isC && b && (fa2.X == base || core.Same(fa2.X, base))
+			}
+			okMark := core.MustFollowDeep(fn, core.After(in), marks, nil).OK || core.PrecedesDeep(fn, in, marks)
+			c.Decide(okMark, "R15.1", "error-ends-the-fetch:"+core.FuncName(fn), c.Pos(in), "where the error is recorded the state is marked complete", core.FuncName(fn)+" records a fatal error in a ConsumeState without marking it complete: the paths that handle arriving segments and retries test `complete`, so the failed fetch stays live and its callback reports an outcome a second time")
+		})
+	}
+	c.Floor("R15.1", "stores of a fatal error into a ConsumeState", nErr, 1)
+	c.Floor("R15.1", "complete=true stores", nStores, 1)
 	if hd := c.Fn("R15.1", "std/object", "rrSegFetcher", "handleData"); hd != nil {
 		state := ssa.Value(hd.Params[2])
 		done := &core.Atom{Name: "state.complete", Match: func(cond ssa.Value) (int, int) {
